@@ -204,8 +204,20 @@ func (a *aclRecordBuilder) BuildBatchRequest(payload BatchRequestPayload) (batch
 			return batchResult, ErrReadKeyChangeNotAlone
 		}
 	}
+	// the revokes go first: every rotation below (the one a removal carries, or the stand-alone one) is then
+	// applied to a state in which the revoked invites are already gone, so it may - and does - leave them out.
+	// Emitted after a removal, its rotation would still hand the new read key to the invites revoked here.
+	revoked := make(map[string]struct{}, len(payload.InviteRevokes))
+	for _, id := range payload.InviteRevokes {
+		content, err = a.buildInviteRevoke(id)
+		if err != nil {
+			return
+		}
+		contentList = append(contentList, content)
+		revoked[id] = struct{}{}
+	}
 	if len(payload.Removals.Identities) > 0 {
-		content, err = a.buildAccountRemove(payload.Removals)
+		content, err = a.buildAccountRemove(payload.Removals, revoked)
 		if err != nil {
 			return
 		}
@@ -239,21 +251,10 @@ func (a *aclRecordBuilder) BuildBatchRequest(payload BatchRequestPayload) (batch
 		}
 		contentList = append(contentList, content)
 	}
-	for _, id := range payload.InviteRevokes {
-		content, err = a.buildInviteRevoke(id)
-		if err != nil {
-			return
-		}
-		contentList = append(contentList, content)
-	}
 	if payload.ReadKeyChange != nil {
 		// emitted after the revokes so that, when the record is applied in order, the invites are already
 		// gone from the state by the time the rotation lands — which is what lets the new key legitimately
 		// omit them and still validate.
-		revoked := make(map[string]struct{}, len(payload.InviteRevokes))
-		for _, id := range payload.InviteRevokes {
-			revoked[id] = struct{}{}
-		}
 		var rkChange *aclrecordproto.AclReadKeyChange
 		rkChange, err = a.buildReadKeyChange(*payload.ReadKeyChange, nil, revoked)
 		if err != nil {
@@ -909,14 +910,14 @@ func (a *aclRecordBuilder) buildReadKeyChange(payload ReadKeyChangePayload, remo
 }
 
 func (a *aclRecordBuilder) BuildAccountRemove(payload AccountRemovePayload) (rawRecord *consensusproto.RawRecord, err error) {
-	content, err := a.buildAccountRemove(payload)
+	content, err := a.buildAccountRemove(payload, nil)
 	if err != nil {
 		return
 	}
 	return a.buildRecord(content)
 }
 
-func (a *aclRecordBuilder) buildAccountRemove(payload AccountRemovePayload) (value *aclrecordproto.AclContentValue, err error) {
+func (a *aclRecordBuilder) buildAccountRemove(payload AccountRemovePayload, revokedInvites map[string]struct{}) (value *aclrecordproto.AclContentValue, err error) {
 	deletedMap := map[string]struct{}{}
 	for _, key := range payload.Identities {
 		permissions := a.state.Permissions(key)
@@ -940,7 +941,7 @@ func (a *aclRecordBuilder) buildAccountRemove(payload AccountRemovePayload) (val
 		}
 		marshalledIdentities = append(marshalledIdentities, protoIdentity)
 	}
-	rkChange, err := a.buildReadKeyChange(payload.Change, deletedMap, nil)
+	rkChange, err := a.buildReadKeyChange(payload.Change, deletedMap, revokedInvites)
 	if err != nil {
 		return nil, err
 	}
